@@ -1,6 +1,6 @@
 (* area client: model units for the RPC client shell (receive loops, handshake, framing). *)
 From Coq Require Import String.
-From V Require Import Prelude.Base Prelude.Val Model.Recv.
+From V Require Import Prelude.Base Prelude.Val Model.Recv Model.Handshake gen.C_client.
 
 Fixpoint zs_of_vals (l : list val) : option (list Z) :=
   match l with
@@ -33,9 +33,65 @@ Definition u_recv_async (a : val) : val :=
   | _ => bad
   end.
 
+(* ---- handshake ---- *)
+Definition opt_bytes_of_val (v : val) : option (option bytes) :=
+  match v with VB b => Some (Some b) | VN => Some None | _ => None end.
+Fixpoint legs_of_vals (l : list val) : option (list leg) :=
+  match l with
+  | [] => Some []
+  | VL [VB t; VI c] :: r =>
+    match legs_of_vals r with Some m => Some ({| leg_token := t; leg_complete := negb (c =? 0) |} :: m) | None => None end
+  | _ => None
+  end.
+Definition reply_of_val (v : val) : option reply :=
+  match v with
+  | VL [VI k; VL rs; VI fl; tk] =>
+    match zs_of_vals rs, opt_bytes_of_val tk with
+    | Some rs', Some tk' =>
+      if k =? 0 then Some (RBindAck rs' fl tk') else if k =? 1 then Some (RAlterResp rs' fl tk')
+      else if k =? 2 then Some RBindNak else if k =? 3 then Some RFault else if k =? 4 then Some RResponse else None
+    | _, _ => None
+    end
+  | _ => None
+  end.
+Fixpoint replies_of_vals (l : list val) : option (list reply) :=
+  match l with
+  | [] => Some []
+  | v :: r => match reply_of_val v, replies_of_vals r with Some a, Some m => Some (a :: m) | _, _ => None end
+  end.
+Definition val_of_sent (p : sent) : val :=
+  match p with
+  | SBind fl tk cs => VL [VI 0; VI (Z.lor fl c_PFC_FIRST_LAST); vopt VB tk; VL (map VI cs)]
+  | SAlter fl tk cs => VL [VI 1; VI (Z.lor fl c_PFC_FIRST_LAST); VB tk; VL (map VI cs)]
+  end.
+(* [flavour; auth; legs; server; ctxs] -> [result; trace; steps; sign_header; replies left] *)
+Definition u_handshake (a : val) : val :=
+  match a with
+  | VL [VI _flavour; VI auth; VL legs; VL srv; VL cs] =>
+    match legs_of_vals legs, replies_of_vals srv, zs_of_vals cs with
+    | Some lg, Some sv, Some cx =>
+      let '(r, s) := bind_run (negb (auth =? 0)) lg sv cx in
+      VL [vres (fun rs => VL (map VI rs)) r; VL (map val_of_sent (trace s)); VL (map (vopt VB) (steps s));
+          vbool (sign s); VI (len (server s))]
+    | _, _, _ => bad
+    end
+  | _ => bad
+  end.
+(* [requested ctx ids; results; desired] *)
+Definition u_bind_result (a : val) : val :=
+  match a with
+  | VL [VL req; VL rs; VI d] =>
+    match zs_of_vals req, zs_of_vals rs with
+    | Some rq, Some r => vres (fun _ => VN) (process_bind_result rq r d)
+    | _, _ => bad
+    end
+  | _ => bad
+  end.
+
 Open Scope string_scope.
 Definition units : list (string * (val -> val)) :=
-  [ ("recv.sync", u_recv_sync); ("recv.async", u_recv_async) ].
+  [ ("recv.sync", u_recv_sync); ("recv.async", u_recv_async);
+    ("handshake", u_handshake); ("bind_result", u_bind_result) ].
 
 Fixpoint lookup (n : string) (l : list (string * (val -> val))) : option (val -> val) :=
   match l with
